@@ -93,6 +93,11 @@ def run(facts, R):
             # both helpers were folded into their callers: the handle/handle_view comparison above now covers their code
             R.note("helper pair %s / %s no longer exists; covered by the handle == handle_view comparison" % (a, b))
             continue
+        if (a in facts.bodies) != (b in facts.bodies):
+            # one function now serves both paths (it takes what the two requests have in common): nothing left to compare here,
+            # the handle == handle_view comparison sees both paths call it
+            R.note("helper pair %s / %s merged into one function shared by both dispatch paths" % (a, b))
+            continue
         twin_check(facts, R, a, b, "helper pair")
     # the closures handed to decode_typed_slice_ref_param by the two paths
     for im in impls:
@@ -101,6 +106,8 @@ def run(facts, R):
             cb = facts.children(im["methods"]["handle_view"])
             if len(ca) == 1 and len(cb) == 1:
                 twin_check(facts, R, ca[0].path, cb[0].path, "bad-format closure pair")
+            elif not ca and not cb:
+                R.note("TypedSliceRefHandler builds its bad-format answer inline: covered by the handle == handle_view comparison")
             else:
                 R.bad("handler-twins", im["methods"]["handle"], "closures", "expected one closure each, found %d/%d" % (len(ca), len(cb)))
     # default handle_view / handle_with_ctx
@@ -126,16 +133,33 @@ def run(facts, R):
     for im in mp:
         for m, ctor, extra in (("handle", "new", None), ("handle_with_ctx", "with_ctx", "arg3")):
             b = facts.body(im["methods"][m])
-            rows = value_rows(b, Sym(b), facts, 0)
-            ok = len(rows) == 1
+            bs = Sym(b)
+            rows = value_rows(b, bs, facts, 0)
+            v = bs.local(0)
+            ok = len(rows) == 1 and is_call(v, "run") and len(v[2]) == 2 and render_n(v[2][1]) == "arg2"
+            nxt = {}
             if ok:
-                v = rows[0][1]
-                ok = v.startswith("<'a>::run(<'a>::%s(" % ctor) and "arg1.middlewares" in v and "arg1.handler" in v and v.endswith(", arg2)")
-                if extra:
-                    ok = ok and (", %s)" % extra) in v
-            R.check(ok, "pipeline-forwards", b.path, "Next over the whole list and the inner handler", "pipeline %s is %s" % (m, rows), b.span, rows[0][1][:160] if rows else None)
+                x = v[2][0]
+                if x[0] == "agg" and x[1].endswith("Next"):
+                    nxt = {k: render_n(e) for k, e in x[3]}          # the literal, constructors folded into their callers
+                elif x[0] == "call" and x[1].endswith("::" + ctor) and ("server::Next::<'a>::" + ctor) in facts.bodies:
+                    cb = facts.body("server::Next::<'a>::" + ctor)
+                    cv = Sym(cb).local(0)
+                    if cv[0] == "agg":
+                        for k, e in cv[3]:
+                            r = render_n(e)
+                            for ai, a in enumerate(x[2]):
+                                r = r.replace("arg%d" % (ai + 1), "\0%d" % ai)
+                            for ai, a in enumerate(x[2]):
+                                r = r.replace("\0%d" % ai, render_n(a))
+                            nxt[k] = r
+                want_ctx = "Option::None{}" if extra is None else "Option::Some{0: %s}" % extra
+                ok = nxt.get("middlewares") == "arg1.middlewares" and nxt.get("handler") == "arg1.handler" and nxt.get("ctx") == want_ctx
+            R.check(ok, "pipeline-forwards", b.path, "Next over the whole list and the inner handler", "pipeline %s is %s (Next = %s)" % (m, rows, nxt), b.span, rows[0][1][:160] if rows else None)
         # ctors store their arguments
     for ctor in ("new", "with_ctx"):
+        if ("server::Next::<'a>::" + ctor) not in facts.bodies:
+            continue        # folded into the pipeline (checked above on the literal)
         b = facts.body("server::Next::<'a>::" + ctor)
         v = Sym(b).local(0)
         d = dict(v[3]) if v[0] == "agg" else {}
@@ -156,9 +180,13 @@ def run(facts, R):
             ok = a[0].endswith("split_first(arg1.middlewares) as Some).0.0") and a[1] == "arg2" and \
                 d.get("middlewares", "").endswith("split_first(arg1.middlewares) as Some).0.1") and d.get("middlewares", "").startswith("(") and \
                 d.get("handler") == "arg1.handler" and d.get("ctx") == "arg1.ctx"
+            # the same split spelled as a slice pattern `[first, rest @ ..]`
+            ok = ok or (a[0] == "arg1.middlewares[0]" and a[1] == "arg2" and d.get("middlewares") == "arg1.middlewares[1..]" and
+                        d.get("handler") == "arg1.handler" and d.get("ctx") == "arg1.ctx" and any("PtrMetadata(arg1.middlewares) Ge 1) is True" in x for x in fs))
             R.check(ok, "pipeline-forwards", nr.path, "first.handle(req, Next{rest, handler, ctx})", "middleware call args %s" % a, t.get("span"), "rest of the chain forwarded")
         else:
-            ok = a[0] == "arg1.handler" and a[1] == "arg2" and any("split_first(arg1.middlewares) is None" in x for x in fs)
+            ok = a[0] == "arg1.handler" and a[1] == "arg2" and (any("split_first(arg1.middlewares) is None" in x for x in fs) or
+                                                                 any("PtrMetadata(arg1.middlewares) Eq 0) is True" in x for x in fs))
             if nm == "handle_with_ctx":
                 ok = ok and "arg1.ctx" in a[2] and any("arg1.ctx is Some" in x for x in fs)
             R.check(ok, "pipeline-forwards", nr.path, "inner handler gets the same request (%s)" % nm, "inner call args %s under %s" % (a, fs), t.get("span"))
